@@ -57,9 +57,10 @@ CLAIMS = {
                  "the sub-verdicts, and the verdict of a negated condition is the negated verdict (including error/short-circuit "
                  "behaviour) whenever each comparison atom is complement-safe — discharged for integer, date and plain text "
                  "comparisons; two counterexample theorems show the explicit hypotheses cannot be dropped (NaN literal; ordering "
-                 "operators on text, which the code answers false both ways). Curly brackets inside formulas, the infix forms "
-                 "`not like`/`not between` under prefix NOTs, and the end-to-end result sets are decided by the correspondence and the "
-                 "set-algebra oracle over atom queries."),
+                 "operators on text, which the code answers false both ways). The infix forms `e1 not OP e2` and `x [not] between lo and "
+                 "hi` (operands from the whole arithmetic grammar) are atoms of the proved grammar, so the parser-correctness theorem "
+                 "covers them under prefix NOTs and brackets (infix_not_is_atom, between_forms_are_atoms). Curly brackets inside formulas "
+                 "and the end-to-end result sets are decided by the correspondence and the set-algebra oracle over atom queries."),
         "ref": "DESIGN.md §4 C03",
     },
     "C05": {
